@@ -75,17 +75,24 @@ def run(ctx):
         kind = rng.choice(['affine', 'affine', 'nonlinear', 'scalar', 'len1', 'matrix', 'matrix'])
         kk = rng.randint(1, 4)
         T = np.array([[[rng.randint(-16, 16) / 4 for _ in range(n)] for _ in range(kk)] for _ in range(m)])      # (m, k, n)
-        ctx.tried((n, m, meth, order, kind, tuple(x[:2])))
-        rep = dict(n=n, m=m, method=meth, order=order, kind=kind, x=x.tolist())
+        # step options: default, an explicit step ratio, or a user-supplied generator with its own ratio
+        sk = rng.choice([{}, {}, {'step_ratio': rng.choice([1.6, 2.5, 3.0, 4.0])}, 'gen'])
+        if sk == 'gen':
+            from numdifftools.step_generators import MinStepGenerator, MaxStepGenerator
+            sk = {'step': MaxStepGenerator(base_step=1.0, step_ratio=rng.choice([1.6, 3.0]), num_steps=14)} if meth in ('central', 'forward', 'backward') \
+                else {'step': MinStepGenerator(step_ratio=rng.choice([1.6, 3.0]), num_extrap=4)}
+        ctx.tried((n, m, meth, order, kind, tuple(x[:2]), str(sorted(sk))))
+        rep = dict(n=n, m=m, method=meth, order=order, kind=kind, x=x.tolist(),
+                   step_options=str({k: (v if not hasattr(v, 'step_ratio') else '%s(step_ratio=%s)' % (type(v).__name__, v.step_ratio)) for k, v in sk.items()}))
         try:
             with warnings.catch_warnings():
                 warnings.simplefilter('ignore')
                 if kind == 'affine':
-                    J, info = nd.Jacobian(lambda t: A @ t + b, method=meth, order=order, full_output=True)(x)
+                    J, info = nd.Jacobian(lambda t: A @ t + b, method=meth, order=order, full_output=True, **sk)(x)
                     exact, tol = A, TOL_AFFINE * (1 + np.abs(A).max())
                 elif kind == 'nonlinear':
                     W = A / 4
-                    J, info = nd.Jacobian(lambda t: np.sin(W @ t) + (W @ t) ** 2, method=meth, order=order, full_output=True)(x)
+                    J, info = nd.Jacobian(lambda t: np.sin(W @ t) + (W @ t) ** 2, method=meth, order=order, full_output=True, **sk)(x)
                     u = W @ x
                     exact = (np.cos(u) + 2 * u)[:, None] * W
                     tol = None
@@ -93,16 +100,16 @@ def run(ctx):
                     # f(t)[i, l] = sum_j T[i, l, j] t_j (+ a smooth term in half of the cases): shape (m, k); Jacobian [i, j, l] = d f[i, l] / d x_j
                     smooth = it % 2 == 1
                     fm = (lambda t: T @ t + np.sin(T @ t / 16)) if smooth else (lambda t: T @ t)
-                    J, info = nd.Jacobian(fm, method=meth, order=order, full_output=True)(x)
+                    J, info = nd.Jacobian(fm, method=meth, order=order, full_output=True, **sk)(x)
                     dT = (1 + np.cos(T @ x / 16) / 16)[:, :, None] * T if smooth else T
                     exact = np.transpose(dT, (0, 2, 1))
                     tol = None if smooth else TOL_AFFINE * (1 + np.abs(T).max())
                 elif kind == 'scalar':
-                    J, info = nd.Jacobian(lambda t: np.sum(A[0] * t) + np.prod(np.cos(t / 4)), method=meth, order=order, full_output=True)(x)
+                    J, info = nd.Jacobian(lambda t: np.sum(A[0] * t) + np.prod(np.cos(t / 4)), method=meth, order=order, full_output=True, **sk)(x)
                     exact = (A[0] - np.prod(np.cos(x / 4)) * np.tan(x / 4) / 4)[None, :]
                     tol = None
                 else:
-                    J, info = nd.Jacobian(lambda t: np.array([np.sum(A[0] * t)]), method=meth, order=order, full_output=True)(x)
+                    J, info = nd.Jacobian(lambda t: np.array([np.sum(A[0] * t)]), method=meth, order=order, full_output=True, **sk)(x)
                     exact, tol = A[:1], TOL_AFFINE * (1 + np.abs(A).max())
         except Exception as ex:
             ctx.violation('Jacobian raised %r' % ex, **rep)
@@ -121,8 +128,8 @@ def run(ctx):
             xx = x.reshape(2, -1) if (n % 2 == 0 and rng.random() < 0.3) else x
             with warnings.catch_warnings():
                 warnings.simplefilter('ignore')
-                g = nd.Gradient(fs, method=meth, order=order)(xx)
-                Jr = nd.Jacobian(fs, method=meth, order=order)(x)
+                g = nd.Gradient(fs, method=meth, order=order, **sk)(xx)
+                Jr = nd.Jacobian(fs, method=meth, order=order, **sk)(x)
             want_shape = () if n == 1 else (n,)
             if np.shape(g) != want_shape:
                 ctx.violation('Gradient shape is not that of the flattened x', got=list(np.shape(g)), expected=list(want_shape), **rep)
@@ -133,8 +140,8 @@ def run(ctx):
             if np.linalg.norm(v) > 1e-3:
                 with warnings.catch_warnings():
                     warnings.simplefilter('ignore')
-                    dd, di = nd.directionaldiff(fs, x, v, method=meth, order=order, full_output=True)
-                    gg, gi = nd.Gradient(fs, method=meth, order=order, full_output=True)(x)
+                    dd, di = nd.directionaldiff(fs, x, v, method=meth, order=order, full_output=True, **sk)
+                    gg, gi = nd.Gradient(fs, method=meth, order=order, full_output=True, **sk)(x)
                 want = float(np.dot(np.ravel(gg), v / np.linalg.norm(v)))
                 tol_d = 1000 * (float(np.max(di.error_estimate)) + float(np.sum(np.abs(gi.error_estimate)))) + 1e-8 * (1 + abs(want))
                 if abs(float(dd) - want) > tol_d:
